@@ -1,4 +1,5 @@
 import Arp.Props.C15Ln2
 import Arp.Props.C15Concrete
 import Arp.Props.C15E
+import Arp.Props.FuelWide
 /-! # C15 — every theorem of the property (structure, termination, `ln2` accuracy, `pi`/`e` at the standard formats) -/
